@@ -253,6 +253,30 @@ int __wrap_fputc(int c, FILE *f)
     return __wrap_fwrite(&b, 1, 1, f) == 1 ? c : EOF;
 }
 
+// ---- allocation seam for the library's C allocations (malloc/calloc/realloc from the library objects).
+// Requests no machine can serve (>= 2^40 bytes, e.g. malloc((size_t)-1) after a failed ftell) return NULL as
+// libc would; requests above the proportionality budget but below that are recorded as a violation of
+// "memory proportional to the input" and refused; everything else goes to the (sanitizer's) allocator.
+void *__real_malloc(size_t);
+void *__real_calloc(size_t, size_t);
+void *__real_realloc(void *, size_t);
+}
+namespace sim {
+struct AllocSeam { size_t budget; size_t hugeRequest; uint64_t impossibleRequests; AllocSeam() : budget((size_t)320 << 20), hugeRequest(0), impossibleRequests(0) {} };
+static AllocSeam g_alloc;
+static inline bool allocRefuse(size_t n)
+{
+    if(!g_fs.active) return false;
+    if(n >= ((size_t)1 << 40)) { ++g_alloc.impossibleRequests; return true; }
+    if(n > g_alloc.budget) { if(!g_alloc.hugeRequest) g_alloc.hugeRequest = n; return true; }
+    return false;
+}
+}
+extern "C" {
+void *__wrap_malloc(size_t n) { if(sim::allocRefuse(n)) return NULL; return __real_malloc(n); }
+void *__wrap_calloc(size_t a, size_t b) { if(b && a > ((size_t)-1) / b) return NULL; if(sim::allocRefuse(a * b)) return NULL; return __real_calloc(a, b); }
+void *__wrap_realloc(void *p, size_t n) { if(sim::allocRefuse(n)) return NULL; return __real_realloc(p, n); }
+
 // the VGM dumper prints progress lines on stdout; swallow them while the simulation is active
 int __wrap_printf(const char *fmt, ...)
 {
